@@ -24,6 +24,9 @@ type Verdict struct {
 
 // smtText assembles the complete query of an obligation.
 func (o *Oblig) smtText(withModel bool) string {
+	if o.Raw != "" {
+		return o.Raw
+	}
 	vc := o.vc
 	var b strings.Builder
 	b.WriteString("; obligation " + o.Name + "\n")
